@@ -15,6 +15,7 @@ def hexVal (c : Char) : Option Nat :=
   else none
 
 def parseHex (s : String) : Option Nat :=
+  if s.isEmpty then none else
   s.toList.foldl (fun acc c => do let a ← acc; let v ← hexVal c; pure (a * 16 + v)) (some 0)
 
 def hexDigit (n : Nat) : Char :=
